@@ -61,6 +61,7 @@ def concept_case(out: Outcome, rng, cls: str, lines, expect) -> None:
     st = np.random.get_state()
     rep = {"class": cls, "params": p, "stream": xs, "resets": resets}
     n_since = 0
+    last_logs = None
     for t, x in enumerate(xs):
         if t in resets:
             with_cb.reset()
@@ -71,8 +72,12 @@ def concept_case(out: Outcome, rng, cls: str, lines, expect) -> None:
             if any(len(v) for v in cb.history.values()):
                 out.violation(f"{cls}: history is not empty after reset()", rep)
                 return
+            if t > 0 and (any(len(v) for v in cb.logs.values() if isinstance(v, list)) or (last_logs is not None and any(len(v) for v in last_logs["h"].values() if isinstance(v, list)))):
+                out.violation(f"{cls}: right after reset() the callback's logs (and the dictionary update() returned) still show the old history", rep)
+                return
         s1 = np.random.get_state()
         logs = with_cb.update(value=x)
+        last_logs = logs
         s2 = np.random.get_state()
         np.random.set_state(s1)
         plain.update(value=x)
